@@ -294,3 +294,70 @@ def object_clear_contract():
     k = _object_marking_common()
     k['params'] = {'obj': k['params']['obj']}
     return Contract(f'{OM}::clear_markings', props=['C07'], ensures=[('all object markings removed', lambda a, r: _new_refs(r)[1])], raises={'STIXError': None, 'ValueError': None}, **k)
+
+
+# ------------------------------------------------------------------ expand_markings: the abstract view of a granular-markings list is the set of (kind, marking, selector) triples
+GM_REF = z3.Function('gm.marking_ref', z3.IntSort(), E.S); GM_HASREF = z3.Function('gm.has_marking_ref', z3.IntSort(), z3.BoolSort())
+GM_LANG = z3.Function('gm.lang', z3.IntSort(), E.S); GM_HASLANG = z3.Function('gm.has_lang', z3.IntSort(), z3.BoolSort())
+GM_SELS = z3.Function('gm.selectors', z3.IntSort(), E.SetS); GM_N = z3.Int('n_granular_markings')
+TripleSet = z3.ArraySort(z3.BoolSort(), E.S, E.S, z3.BoolSort())          # (is a marking_ref entry?, marking id / language, selector) -> member?
+
+
+def expand_markings_contract():
+    from vf.pyvc.lib import rebinding
+    entries = E.Seq(lambda i: Val('gm', i), GM_N)
+    K_, M_, S_ = z3.Bool('k!tr'), z3.String('m!tr'), z3.String('s!tr')
+
+    def contributes(j, k, m, s):
+        return z3.And(GM_SELS(j)[s], z3.If(k, z3.And(GM_HASREF(j), z3.Length(GM_REF(j)) > 0, GM_REF(j) == m), z3.And(GM_HASLANG(j), z3.Length(GM_LANG(j)) > 0, GM_LANG(j) == m)))
+
+    def m_get(x, recv, args, e, p, site):
+        if len(args) != 1 or not z3.is_string_value(args[0].t): raise Unsupported(site + ' get with a non-literal key')
+        key = args[0].t.as_string(); j = recv.t
+        if key == 'selectors': yield p, Val('selset', GM_SELS(j))
+        elif key == 'marking_ref': yield p, E.Opt(z3.Not(GM_HASREF(j)), Str(GM_REF(j)))
+        elif key == 'lang': yield p, E.Opt(z3.Not(GM_HASLANG(j)), Str(GM_LANG(j)))
+        else: raise Unsupported(site + f' get({key!r})')
+
+    def comp(kind_is_ref, name):
+        def h(x, e, p):
+            m = p.env[name]; sels = p.env['selectors']
+            if sels.sort != 'selset': raise Unsupported('comprehension over ' + sels.sort)
+            mt = m.t[1].t if m.sort.startswith('opt:') else m.t
+            yield p, Val('triples', z3.Lambda([K_, M_, S_], z3.And(K_ == z3.BoolVal(kind_is_ref), M_ == mt, sels.t[S_])))
+        return h
+
+    def m_extend(x, recv, args, p):
+        if args[0].sort != 'triples': raise Unsupported('extend with ' + args[0].sort)
+        base = z3.K(z3.BoolSort(), z3.K(E.S, z3.K(E.S, False))) if False else None
+        if recv.sort == 'litlist':
+            if recv.x: raise Unsupported('extend of a non-empty literal list')
+            return Val('triples', args[0].t)
+        return Val('triples', z3.Lambda([K_, M_, S_], z3.Or(recv.t[K_, M_, S_], args[0].t[K_, M_, S_])))
+
+    def view_of(v):
+        if v.sort == 'litlist' and not v.x: return z3.Lambda([K_, M_, S_], z3.BoolVal(False))
+        if v.sort == 'triples': return v.t
+        return None
+
+    def inv(x, env, i, it):
+        k, m, s = z3.Bool('k!inv'), z3.String('m!inv'), z3.String('s!inv'); j = z3.Int('j!inv')
+        view = view_of(env['expanded'])
+        return z3.ForAll([k, m, s], view[k, m, s] == z3.Exists([j], z3.And(0 <= j, j < i, contributes(j, k, m, s))))
+
+    def ens(a, r):
+        k, m, s = z3.Bool('k!ens'), z3.String('m!ens'), z3.String('s!ens'); j = z3.Int('j!ens')
+        view = view_of(r)
+        if view is None: return z3.BoolVal(False)
+        return z3.ForAll([k, m, s], view[k, m, s] == z3.Exists([j], z3.And(0 <= j, j < GM_N, contributes(j, k, m, s))))
+    return Contract('stix2/markings/utils.py::expand_markings', props=['C07', 'C13'], params={'granular_markings': entries},
+                    requires=[('length', lambda a: GM_N >= 0)],
+                    ensures=[('the expanded list holds exactly the (kind, marking, selector) triples of the input: one per selector of every entry, for its marking_ref and for its lang', ens)],
+                    raises={},
+                    comprehensions={"[{'marking_ref': marking_ref, 'selectors': [selector]} for selector in selectors]": comp(True, 'marking_ref'),
+                                    "[{'lang': lang, 'selectors': [selector]} for selector in selectors]": comp(False, 'lang')},
+                    registry_ext={'methods': {('.get', 'gm'): m_get, ('.extend', 'litlist'): rebinding(m_extend), ('.extend', 'triples'): rebinding(m_extend)}},
+                    loops={0: {'kind': 'inv', 'inv': inv}},
+                    havoc={'expanded': lambda v: Val('triples', z3.FreshConst(TripleSet, 'expanded'))},
+                    assumptions=['entries are mappings with a collection under "selectors"; a list of single-selector entries is abstracted to the set of its (kind, marking, selector) triples '
+                                 '(order and repetition of entries are not part of the view)'])
